@@ -29,7 +29,7 @@ RULE = (
 ASSUMPTIONS = [
     "the configuration is zero-padded to the 6144-byte patch area (the statement's 'padded to the patch area'); with random padding only soundness is judged",
     "configurations of any size up to the patch area are generated; where the key is not the unique most frequent aligned group of the masked area for any of its lengths (little padding, or a longer run of another byte) a failure to recover is the known finding 'guardrails-key-frequency-heuristic', a success is accepted",
-    "an environmental key is reported up to XOR-stream equivalence (a periodic key may be reported by its period)",
+    "an environmental key is reported up to XOR-stream equivalence (a periodic key by its period); exactly as its period when that period is the unique most frequent aligned group of the masked area",
     "beacon single-byte key 0x2e and guard key 0x8a (the defaults the library documents as the only supported ones)",
 ]
 REQUIRED_MONITORS = ["recover.exact", "negative.no_config", "guardrails.checksum_gate", "guardrails.checksum_gate.unmasked"]
@@ -177,7 +177,7 @@ def check_case(case, ctx):
     b0 = contracts.evaluations["guardrails.checksum_gate"]
     b1 = contracts.evaluations["guardrails.checksum_gate.unmasked"]
     try:
-        c = beacon.BeaconConfig.from_bytes(payload)
+        c = beacon.BeaconConfig.from_bytes(payload, all_xor_keys=True) if par.get("allk") else beacon.BeaconConfig.from_bytes(payload)
         err = None
     except ValueError as e:
         c, err = None, e
@@ -225,6 +225,18 @@ def check_case(case, ctx):
             return
         if not stream_equiv(g.payload_xor_key, par["envkey"]):
             problems.append(f"payload_xor_key {core.short(g.payload_xor_key, 40)} is not equivalent to the environmental key {core.short(par['envkey'], 40)}")
+        elif bytes(g.payload_xor_key) != par["envkey"][: min_period(par["envkey"])] and min_period(par["envkey"]) >= 2:
+            # candidates are tried by increasing length: when the key's own period is the unique most frequent aligned group of
+            # that length, it is the first candidate that fits and is reported as such, not as a repetition of itself
+            import collections
+
+            mp = min_period(par["envkey"])
+            masked = P.rxk(ginfo["padded"], par["envkey"])
+            top = collections.Counter(masked[i : i + mp] for i in range(0, len(masked) - mp + 1, mp)).most_common(2)
+            ctx.mon("recover.key_exact")
+            if top[0][0] == par["envkey"][:mp] and (len(top) == 1 or top[1][1] < top[0][1]):
+                problems.append(f"payload_xor_key {core.short(g.payload_xor_key, 40)} is a repetition of the environmental key {core.short(par['envkey'][:mp], 40)}, "
+                                f"which is the unique most frequent {mp}-byte group of the area")
         if (g.beacon_config_offset, g.guard_config_offset) != (base, base + 6144):
             problems.append(f"offsets {(g.beacon_config_offset, g.guard_config_offset)} != {(base, base + 6144)}")
         if g.checksum != ginfo["stored"]:
@@ -277,7 +289,7 @@ def check_case(case, ctx):
         par2 = dict(par, neg="checksum", delta=[1, -1, 1000][par["seed"] % 3], decoy=None)
         payload2, _, _, _, _ = build_payload(None, par2)
         try:
-            c2_ = beacon.BeaconConfig.from_bytes(payload2)
+            c2_ = beacon.BeaconConfig.from_bytes(payload2, all_xor_keys=True) if par.get("allk") else beacon.BeaconConfig.from_bytes(payload2)
         except ValueError:
             c2_ = None
         except Exception as e:  # noqa: BLE001
@@ -291,7 +303,7 @@ def check_case(case, ctx):
     ctx.ok(fp=payload, case={"par": {k: v for k, v in par.items()}, "payload_len": len(payload)}, classes=(
         f"neg:{neg}", f"keylen:{'2-8' if len(par['envkey']) <= 8 else '9-64' if len(par['envkey']) <= 64 else '65-256'}",
         f"opts:{'+'.join(map(str, par['opts']))}", f"container:{par['container']}", f"xorenc:{par['xorenc']}", f"keykind:{par['keykind'].split(':')[0]}", f"decoy:{par.get('decoy')}",
-        "bulk:none" if not par.get("bulk") else f"bulk:{'random' if par['bulk']['byte'] is None else 'run'}", f"guardlook:{bool(par.get('guardlook'))}",
+        "bulk:none" if not par.get("bulk") else f"bulk:{'random' if par['bulk']['byte'] is None else 'run'}", f"guardlook:{bool(par.get('guardlook'))}", f"allkeys:{bool(par.get('allk'))}",
         f"seam@block-boundary:{(base + 6138) % 8192 > 8180 or (base + 6138) % 8192 == 0}"))
 
 
@@ -378,6 +390,9 @@ def gen_par(rng, keylen, neg=None, xorsniff=None):
     if neg is None and rng.random() < 0.2:
         par["bulk"] = {"padding": rng.choice([0, 2, keylen, 2 * keylen - 1, 2 * keylen + 1, 3 * keylen, 600, rng.randrange(0, 1200)]),
                        "byte": rng.choice([None, None, 0x41, 0x00, 0xFF])}
+    if rng.random() < 0.25 and not par.get("xorsniff"):
+        # the caller asks for all 256 single-byte keys: header look-alikes inside the protected area exist under other keys too
+        par["allk"] = True
     if neg == "checksum":
         par["delta"] = rng.choice([1, -1, 2, 1000, -2])
     elif neg == "guard-truncated":
